@@ -1,8 +1,8 @@
 (* C20 -- NAT hole punching: authenticated, complementary instructions, bounded state.
    Statements only; proofs are in Proofs/NatHoleProofs.v, Proofs/NatHoleToday.v (and Proofs/NatHoleCtlProofs.v).
    [nh_today] is the table/guard data regenerated from pkg/nathole by translator unit T2 on every run. *)
-From FRP Require Import Model.NatHoleToday Model.NatHoleCtl Model.NatHoleTr Proofs.NatHoleProofs Proofs.NatHoleToday Proofs.NatHoleCtlProofs
-  Proofs.NatHoleTrProofs.
+From FRP Require Import Model.NatHoleToday Model.NatHoleCtl Model.NatHoleTr Model.NatHoleSid Proofs.NatHoleProofs Proofs.NatHoleToday
+  Proofs.NatHoleCtlProofs Proofs.NatHoleTrProofs Proofs.NatHoleSidProofs.
 Open Scope Z_scope.
 
 (* Reflective obligation over today's source: the five mode tables, getBehaviorByMode, the swap guards of
@@ -192,17 +192,49 @@ Proof. exact (ctl_proxy_close nh_today). Qed.
 Print Assumptions C20_close_unregisters_in_every_state.
 
 (* all interleavings after Close has returned (any events of other sessions, of the closed proxy's still running goroutine,
-   of other proxies -- anything but a new registration of that very name): a HandleVisitor naming the closed proxy, signed or
+   of other proxies -- anything but a new registration of that very name, [ctl_registers]: ListenClient directly or through a
+   NewProxy of a live control): a HandleVisitor naming the closed proxy, signed or
    pre-check, gets "doesn't exist" and creates no session *)
 Theorem C20_no_session_for_closed_proxy :
   forall auth st name st1 o1 evs vm tr user st3 o3,
   ctl_step nh_today auth st (EvProxyClose name) = Some (st1, o1) ->
-  Forall (fun e => forall sk allow, e <> EvListen name sk allow) evs ->
+  Forall (fun e => ~ ctl_registers e name) evs ->
   vm_proxy vm = name ->
   ctl_step nh_today auth (fst (ctl_run nh_today auth st1 evs)) (EvVisitor vm tr user) = Some (st3, o3) ->
   st3 = fst (ctl_run nh_today auth st1 evs) /\ o3 = [OutReply tr (nh_err_resp (vm_tid vm) NeNoProxy)].
-Proof. exact (ctl_no_session_for_closed_proxy nh_today). Qed.
+Proof. exact (fun auth => ctl_no_session_for_closed_proxy nh_today auth (nh_T_ok C20_source_tables_check)). Qed.
 Print Assumptions C20_no_session_for_closed_proxy.
+
+(* ---- registrations made through a control session (NewProxy -> RegisterProxy -> XTCPProxy.Run -> ListenClient) ---- *)
+(* NewProxy is handled inside the control's read loop, and Control.worker starts the teardown only after that loop has ended
+   (translated facts, part of C20_source_tables_check): a control that has ended cannot register any more *)
+Theorem C20_ended_control_cannot_register :
+  forall auth st k name sk allow,
+  ctl_zin k (st_deadctl st) = true -> ctl_step nh_today auth st (EvNewProxy k name sk allow) = None.
+Proof. exact (ctl_dead_control_cannot_register nh_today). Qed.
+Print Assumptions C20_ended_control_cannot_register.
+
+(* every schedule: whatever the controller lists was registered directly or by a control whose read loop has NOT ended; so
+   once the owner's control is gone (EvCtlEnd: its teardown closes every proxy it registered) none of its xtcp proxies is
+   listed, a pre-check for one says "doesn't exist" and no session is created for it (C20_session_only_if_signed_and_live) *)
+Theorem C20_listed_proxy_has_a_live_control :
+  forall auth evs c, let st := fst (ctl_run nh_today auth ctl_init evs) in
+  In c (st_cfgs st) -> ctl_zin (cc_owner c) (st_deadctl st) = false.
+Proof. exact (fun auth evs c => ctl_listed_implies_owner_alive nh_today auth (nh_T_ok C20_source_tables_check) evs c). Qed.
+Print Assumptions C20_listed_proxy_has_a_live_control.
+
+(* ---- the detect messages between the two peers ---- *)
+(* EncodeMessage / DecodeMessageInto are frame-then-encrypt / decrypt-then-unframe with the caller's key and no branch on the
+   key (translated, part of C20_source_tables_check), so for EVERY key -- the empty key of an xtcp pair without secretKey
+   included -- what one honest peer sends the other decodes (crypto and framing are oracles with their round-trip laws) *)
+Theorem C20_sid_codec_symmetric_for_every_key :
+  forall (M : Type) (frame : M -> bytes) (unframe : bytes -> option M) (enc dec : bytes -> bytes -> option bytes),
+  (forall m, unframe (frame m) = Some m) ->
+  (forall k s, exists c, enc k s = Some c) ->
+  (forall k s c, enc k s = Some c -> dec k c = Some s) ->
+  forall key m, exists d, sid_encode M frame enc key m = Some d /\ sid_decode M unframe dec key d = Some m.
+Proof. exact sid_roundtrip. Qed.
+Print Assumptions C20_sid_codec_symmetric_for_every_key.
 
 (* ---- the transporter each NatHoleResp is handed to (every OutReply / OutResp above is one call of Send) ---- *)
 (* Send on a control's bounded queue has exactly three outcomes: the message is in the queue; refused, and then the control's
